@@ -92,6 +92,19 @@ fn pairs() -> Vec<Pair> {
         ("acetone+co2", zoo::pcsaft_params(&[(&["acetone"], "gross2006"), (&["carbon dioxide"], "gross2005_fit")]), 508.0),
         ("propane+hexane:k", zoo::pcsaft_with_kij(&zoo::pcsaft_params(&[(&["propane", "hexane"], "gross2001")]), 0.03), 370.0),
     ];
+    // association schemes with unequal site counts (3B, 1A/2B, ...): the closed-form 1A/1B solution is implemented twice
+    // (equation of state and functional) and both must treat the two site types asymmetrically in the same way
+    let mut sets = sets;
+    for (na, nb, nc) in [(2.0, 1.0, 0.0), (1.0, 2.0, 0.0), (3.0, 1.0, 0.0), (2.0, 2.0, 0.0), (0.0, 0.0, 1.0), (2.0, 1.0, 1.0)] {
+        let rec = |na: f64, nb: f64, nc: f64| PureRecord::new(Identifier::new(None, Some(&format!("assoc({na},{nb},{nc})")), None, None, None, None), 32.04, PcSaftRecord::new(1.5255, 3.23, 188.9, None, None, Some(0.035176), Some(2899.5), Some(na), Some(nb), Some(nc), None, None, None));
+        let hexane = zoo::pcsaft_params(&[(&["hexane"], "gross2001")]).records().0[0].clone();
+        let nm: &'static str = Box::leak(format!("assoc({na},{nb},{nc})").into_boxed_str());
+        // reference temperature chosen so that eps_AB/kT <= 9.7 on the lattice, as for the shipped water record (conditioning of the
+        // closed form degrades exponentially beyond that)
+        sets.push((nm, Arc::new(PcSaftParameters::new_pure(rec(na, nb, nc)).unwrap()), 750.0));
+        let nm2: &'static str = Box::leak(format!("assoc({na},{nb},{nc})+hexane").into_boxed_str());
+        sets.push((nm2, Arc::new(PcSaftParameters::new_binary(vec![rec(na, nb, nc), hexane], None).unwrap()), 750.0));
+    }
     for (nm, p, tref) in &sets {
         let n = p.records().0.len();
         for (vn, ver) in [("wb", FMTVersion::WhiteBear), ("kr", FMTVersion::KierlikRosinberg), ("aswb", FMTVersion::AntiSymWhiteBear)] {
@@ -101,9 +114,11 @@ fn pairs() -> Vec<Pair> {
                 Arc::new(PcSaftFunctional::new_full(p.clone(), ver)),
                 n,
                 *tref,
+                // unequal site counts: the two closed forms order their cancellations differently, third temperature derivatives
+                // agree to 1e-9 only (observed on the pinned tree); a wrong site count changes A by percent
+                if nm.starts_with("assoc(") { 1e-8 } else { 1e-10 },
                 1e-10,
-                1e-10,
-                vn == "wb" && (*nm == "propane" || *nm == "methanol+water+ethanol") || (vn == "kr" && *nm == "acetone+co2"),
+                vn == "wb" && (*nm == "propane" || *nm == "methanol+water+ethanol" || *nm == "assoc(2,1,0)" || *nm == "assoc(1,2,0)+hexane") || (vn == "kr" && *nm == "acetone+co2"),
             ));
         }
     }
@@ -224,7 +239,7 @@ fn assoc_case(c: &(String, Arc<PcSaftParameters>, f64, f64), rec: &mut Rec) {
     let eos = Arc::new(PcSaft::new(p.clone()));
     let x = arr1(&[1.0]);
     let rmax = eos.max_density(Some(&Moles::from_reduced(x.clone()))).unwrap().to_reduced();
-    let t = 500.0 * tf;
+    let t = if c.0.starts_with("assoc(") { 750.0 } else { 500.0 } * tf;
     let s = State::new_nvt(&eos, Temperature::from_reduced(t), Volume::from_reduced(1.0 / (rmax * eta)), &Moles::from_reduced(x)).unwrap();
     let ana = Association::new(p, &p.association, 50, 1e-10);
     let itr = Association::new_cross_association(p, &p.association, 50, 1e-10);
@@ -323,7 +338,12 @@ pub fn run(ctx: &mut Ctx) {
     ctx.run(&cases, |c| format!("{}|x={}|T={}|eta={}", c.pair.id, xs(&c.x), c.tf, c.eta), case);
     // association
     let mut ac = vec![];
-    for (nm, p) in [("water(2B)", zoo::pcsaft_params(&[(&["water"], "gross2002")])), ("methanol(2B)", zoo::pcsaft_params(&[(&["methanol"], "gross2002")])), ("acetic acid", zoo::pcsaft_params(&[(&["acetic acid"], "gross2002")]))] {
+    let mut aset: Vec<(String, Arc<PcSaftParameters>)> = vec![("water(2B)".into(), zoo::pcsaft_params(&[(&["water"], "gross2002")])), ("methanol(2B)".into(), zoo::pcsaft_params(&[(&["methanol"], "gross2002")])), ("acetic acid".into(), zoo::pcsaft_params(&[(&["acetic acid"], "gross2002")]))];
+    for (na, nb) in [(2.0, 1.0), (1.0, 2.0), (3.0, 1.0), (2.0, 2.0)] {
+        let r = PureRecord::new(Identifier::new(None, Some("assoc"), None, None, None, None), 32.04, PcSaftRecord::new(1.5255, 3.23, 188.9, None, None, Some(0.035176), Some(2899.5), Some(na), Some(nb), None, None, None, None));
+        aset.push((format!("assoc({na},{nb})"), Arc::new(PcSaftParameters::new_pure(r).unwrap())));
+    }
+    for (nm, p) in aset {
         for &tf in &t_factors(tier) {
             for &eta in &eta_factors(tier) {
                 if eta >= 1e-3 {
